@@ -522,6 +522,9 @@ func (env *cenv) call(e *CExpr) cval {
 		if mon == nil {
 			env.fail("held(%s): type has no monitor", args[0])
 		}
+		if g.freshObjs[a.term] {
+			return env.boolv("true") // an object allocated by the running function is not shared yet
+		}
 		return env.boolv(fmt.Sprintf("(select %s %s)", g.get(env.cur, g.heldVar(mon)), a.term))
 	case "wold", "bcast":
 		a := env.eval(args[0])
@@ -559,6 +562,25 @@ func (env *cenv) call(e *CExpr) cval {
 		}
 		g.eventVars(ev)
 		return env.intv(g.get(env.cur, "G."+fnE.Name+"."+ev))
+	case "delta":
+		// delta(E): occurrences of event E during the call
+		ev := args[0].Name
+		if _, ok := g.eng.DB.Events[ev]; !ok {
+			env.fail("unknown event %s", ev)
+		}
+		if env.old == nil {
+			env.fail("delta() needs a pre-state")
+		}
+		g.eventVars(ev)
+		return env.intv(fmt.Sprintf("(- %s %s)", g.get(env.cur, "G.cnt."+ev), g.get(env.old, "G.cnt."+ev)))
+	case "lastret":
+		ev := args[0].Name
+		rn := "G.ret." + ev
+		srt, ok := g.varSort[rn]
+		if !ok {
+			env.fail("lastret(%s): the event never occurs in this function", ev)
+		}
+		return cval{term: g.get(env.cur, rn), sort: srt}
 	case "now":
 		g.stateVar("G.now", "Int")
 		return env.intv(g.get(env.cur, "G.now"))
